@@ -37,6 +37,6 @@ def instances(tier):
             if tcp:
                 d["TCP"] = None
             out.append(mk("c08_%s_%s" % (nm, "tcp" if tcp else "serial"), "C08/c08.c", rc.UNITS, d, unwind=UW,
-                          default_unwind=3, encoded_units=rc.ENC, fp_removal=True, replay_units=rc.REPLAY_UNITS,
+                          default_unwind=lmax + 2, encoded_units=rc.ENC, fp_removal=True, replay_units=rc.REPLAY_UNITS,
                           object_bits=12, timeout=3000))
     return out
